@@ -234,6 +234,12 @@ impl Monitor {
                                 self.flag("C42:id-reused", format!("add returned id {} after id {} (ids must strictly increase)", e.id, l));
                             }
                         }
+                        if self.removed_done.contains(&e.id) {
+                            self.flag(
+                                "C41:resurrected",
+                                format!("add returned id {} although a removal of channel {} had returned: a removed channel reappears", e.id, e.id),
+                            );
+                        }
                         if self.ever.contains(&e.id) {
                             self.flag("C42:id-reused", format!("add returned id {} twice", e.id));
                         }
